@@ -52,6 +52,8 @@ def forms(op):
     out = []
     if k == "rt":
         lags, unit = op["lags"], op["unit"]
+        if unit == "timedelta" and lags is not None:  # requested lags are timedelta objects (recorded as days)
+            lags = [datetime.timedelta(days=x) for x in lags]
         if lags is None and unit == "month":
             out.append(("method()", lambda t: t.make_right_triangle()))
             out.append(("function(t)", lambda t: extend.make_right_triangle(t)))
@@ -108,6 +110,45 @@ def apply_op(t, op):
     return call_form(t, forms(op)[0][1])
 
 
+class MyDateTime(datetime.datetime):
+    """a user-defined datetime subclass"""
+
+
+def retimed(t, kind):
+    from bermuda import Triangle
+
+    if kind == "timestamp":
+        import pandas as pd
+
+        mk = lambda x, h, m: pd.Timestamp(year=x.year, month=x.month, day=x.day, hour=h, minute=m)  # noqa: E731
+    elif kind == "subclass":
+        mk = lambda x, h, m: MyDateTime(x.year, x.month, x.day, h, m)  # noqa: E731
+    else:
+        mk = lambda x, h, m: datetime.datetime(x.year, x.month, x.day, h, m)  # noqa: E731
+    metas = []
+    out = []
+    for c in t.cells:
+        if not any(c.metadata == m for m in metas):
+            metas.append(c.metadata)
+        i = next(k for k, m in enumerate(metas) if m == c.metadata)
+        h, mi = [(0, 0), (17, 30), (9, 15)][i % 3]
+        kw = {}
+        if type(c).__name__ == "IncrementalCell":
+            kw["prev_evaluation_date"] = mk(c.prev_evaluation_date, h, mi)
+        out.append(type(c)(period_start=mk(c.period_start, h, mi), period_end=mk(c.period_end, h, mi),
+                           evaluation_date=mk(c.evaluation_date, h, mi), values=c.values, metadata=c.metadata, **kw))
+    return Triangle(out)
+
+
+def reclassed(t):
+    from bermuda import Cell, CumulativeCell, Triangle
+
+    swap = {"Cell": CumulativeCell, "CumulativeCell": Cell}
+    return Triangle([swap[type(c).__name__](period_start=c.period_start, period_end=c.period_end,
+                                            evaluation_date=c.evaluation_date, values=c.values, metadata=c.metadata)
+                     for c in t.cells])
+
+
 def form_differences(t, op, res):
     """All public forms of the same request must agree with the primary observation (strict)."""
     def canon(r):
@@ -116,7 +157,33 @@ def form_differences(t, op, res):
     fs = forms(op)
     want = canon(res)
     bad = []
-    for name, f in fs[1:]:
+    extra = []
+    cells = list(t.cells)
+    cum_like = bool(cells) and type(cells[0]).__name__ != "IncrementalCell"
+    # H: the same call twice on the SAME receiver object (cached properties populated by the first call)
+    def twice(tt):
+        fs[0][1](tt)
+        return fs[0][1](tt)
+    extra.append(("second call on the same receiver", twice))
+    # K: unit spellings
+    if op["kind"] == "rt" and op["unit"] in ("month", "day"):
+        for sp in {"month": ["months", "Month", " MONTHS "], "day": ["days", "Day", " DAYS "]}[op["unit"]]:
+            extra.append((f"method(dev_lag_unit={sp!r})", lambda tt, sp=sp: tt.make_right_triangle(dev_lags=op["lags"], dev_lag_unit=sp)))
+    if op["kind"] == "rt" and op["unit"] == "timedelta":
+        tl = None if op["lags"] is None else [datetime.timedelta(days=x) for x in op["lags"]]
+        extra.append(("method(dev_lag_unit='TimeDelta')", lambda tt: tt.make_right_triangle(dev_lags=tl, dev_lag_unit="TimeDelta")))
+        # the timedelta unit is the day unit: same cells as asking in days
+        extra.append(("method(dev_lag_unit='day') with the same lags in days",
+                      lambda tt: tt.make_right_triangle(dev_lags=op["lags"], dev_lag_unit="day")))
+    # D: the same triangle given with datetime / Timestamp / datetime-subclass coordinates carrying a time of day
+    if cells:
+        for kind_ in ("timestamp", "datetime", "subclass")[len(cells) % 3:][:1]:
+            extra.append((f"receiver built from {kind_} coordinates", lambda tt, kind_=kind_: fs[0][1](retimed(tt, kind_))))
+    # H: equal-but-differently-typed receiver (Cell <-> CumulativeCell); the new cells of the right triangle /
+    # diagonal are CumulativeCell either way
+    if cum_like and op["kind"] in ("rt", "rd"):
+        extra.append(("receiver of the other cumulative cell class", lambda tt: fs[0][1](reclassed(tt))))
+    for name, f in fs[1:] + extra:
         try:
             r = call_form(t, f)
         except Exception as ex:  # noqa: BLE001
@@ -132,7 +199,9 @@ def form_differences(t, op, res):
 def cop(op):
     k = op["kind"]
     if k == "rt":
-        u = "UMonth" if op["unit"] == "month" else "UDay"
+        if op["unit"] not in ("month", "day", "timedelta"):
+            raise ct.NotRepresentable("unit outside the model")
+        u = "UMonth" if op["unit"] == "month" else "UDay"      # timedelta = the day unit as timedelta objects
         return f"(OpRT {u} {copt(op['lags'], czlist)})"
     if k == "rd":
         return f"(OpRD {czlist(D.fromisoformat(d).toordinal() for d in op['dates'])} {cbool(op['hist'])})"
@@ -149,7 +218,7 @@ def coord(c):
 
 
 def lag_of(c, unit):
-    if unit == "day":
+    if unit in ("day", "timedelta"):
         return (c.evaluation_date - c.period_end).days
     return mid(c.evaluation_date) - mid(c.period_end)
 
@@ -191,6 +260,9 @@ def oracle(t, op, res):
             bad.append(f"raised {type(res).__name__}: {res}")
         return bad
     out = list(res.cells)
+    if not all(type(d) is datetime.date for c in out
+               for d in (c.period_start, c.period_end, c.evaluation_date, getattr(c, "prev_evaluation_date", c.period_end))):
+        bad.append("a result cell holds a period / evaluation date that is not a plain datetime.date")
     occupied = {}
     for c in cells:
         _, i = find_row(metas, rws, c)
@@ -367,6 +439,8 @@ def expected_exception(t, op):
             return KeyError
     if k in ("rt", "rd") and cells and type(cells[0]).__name__ == "IncrementalCell" and not convertible(cells):
         return TriangleError  # an incomplete incremental triangle cannot be put on a cumulative basis
+    if k == "rt" and op["unit"] not in ("month", "day", "timedelta") and cells and (op["lags"] is None or op["lags"]):
+        return ValueError  # unrecognised unit (L)
     if k == "rd" and op["hist"]:
         return ValueError
     return None
@@ -401,19 +475,28 @@ def respell(t, kind, rng):
     cells = list(t.cells)
     variant = rng.choice(["float", "bool", "order", "float+order"])
 
+    def lim(m, f):
+        x = m.per_occurrence_limit
+        return x if x is None or isinstance(x, bool) else (float(x) if f else (int(x) if float(x).is_integer() else x))
+
     def base(m):
         d = dict(m.details)
         d["treaty_id"] = 7
         d["flag"] = 1
-        return dataclasses.replace(m, details=d)
+        ld = dict(m.loss_details)
+        ld.update({"la": 1, "lb": "z"})
+        return dataclasses.replace(m, details=d, loss_details=ld, per_occurrence_limit=lim(m, False))
 
     def alt(m):
         d = dict(m.details)
         d["treaty_id"] = 7.0 if "float" in variant else 7
         d["flag"] = True if variant == "bool" else 1
+        ld = dict(m.loss_details)
+        ld.update({"la": 1.0 if "float" in variant else 1, "lb": "z"})
         if "order" in variant:
             d = dict(reversed(list(d.items())))
-        return dataclasses.replace(m, details=d)
+            ld = dict(reversed(list(ld.items())))
+        return dataclasses.replace(m, details=d, loss_details=ld, per_occurrence_limit=lim(m, "float" in variant))
 
     newest = {}
     for c in cells:
@@ -443,8 +526,10 @@ def gen_case(rng, g, i):
     res = rng.choice([1, 3, 3, 6, 12])
     with warnings.catch_warnings():
         warnings.simplefilter("ignore")
-        t, info = g.triangle(layout=shape, basis=basis, n_slices=n_slices, values=rng.choice(["int", "float", "int"]),
-                             res=res, n_periods=rng.randint(1, 4), n_lags=rng.randint(1, 4), same_fields=True,
+        t, info = g.triangle(layout=shape, basis=basis, n_slices=n_slices,
+                             values=rng.choice(["int", "float", "int", "arr_int", "arr_float"]),
+                             res=res, n_periods=rng.randint(1, 4), n_lags=rng.randint(1, 4),
+                             same_fields=(basis == "inc" or rng.random() < 0.85),
                              fields=rng.sample(["paid_loss", "reported_loss", "earned_premium"], rng.randint(1, 3)))
     cells = list(t.cells)
     if not month_aligned(cells):
@@ -475,7 +560,7 @@ def gen_case(rng, g, i):
     evs = sorted({c.evaluation_date for c in cells})
     lags = sorted({mid(c.evaluation_date) - mid(c.period_end) for c in cells})
     if kind == "rt":
-        unit = "month" if rng.random() < 0.75 else "day"
+        unit = "month" if rng.random() < 0.7 else rng.choice(["day", "day", "timedelta"])
         if rng.random() < 0.5:
             ls = None
         elif unit == "month":
@@ -594,9 +679,130 @@ def directed():
     return out
 
 
+def hardening():
+    """Directed stream for the input families of notes/HARDENING.md (runs on every quick run)."""
+    from bermuda import Cell, CumulativeCell, IncrementalCell, Metadata, Triangle
+
+    def mk(ps, pe, ev, vals=None, m=None, cls=CumulativeCell):
+        return cls(period_start=ps, period_end=pe, evaluation_date=ev,
+                   values=dict(vals) if vals is not None else {"paid_loss": 1, "earned_premium": 10}, metadata=m or Metadata())
+
+    def upper_left(y, m0, n, res=1, metas=(None,), vals=None, holes=(), cls=CumulativeCell):
+        """n periods of `res` months from (y, m0); period p observed at lags 0, res, .. up to the common last
+        diagonal; `holes` = set of (p, k) dropped"""
+        start = (y - 1970) * 12 + m0 - 1
+        cells = []
+        for m in metas:
+            for p in range(n):
+                a, b = start + p * res, start + (p + 1) * res - 1
+                for k in range(n - p):
+                    if (p, k) in holes:
+                        continue
+                    cells.append(mk(acc_mstart(a), mend(b), mend(b + k * res), vals, m, cls))
+        return Triangle(cells)
+
+    from harness.acc_common import mstart as acc_mstart
+
+    OPS = [{"kind": "rt", "unit": "month", "lags": None}, {"kind": "rt", "unit": "day", "lags": [0, 45, 400]},
+           {"kind": "rd", "dates": [], "hist": False}, {"kind": "ff", "res": 1, "none": False},
+           {"kind": "bf", "statics": ["earned_premium"], "res": 1, "min_lag": -1}]
+
+    def with_dates(t, op):
+        if op["kind"] != "rd":
+            return op
+        hi = max(c.evaluation_date for c in t.cells) if len(t.cells) else D(2020, 1, 31)
+        return dict(op, dates=[mend(mid(hi) + k).isoformat() for k in (-1, 0, 1, 3)])
+
+    out = []
+
+    def add(label, t, ops=OPS):
+        for op in ops:
+            out.append((f"hardening:{label}:{op['kind']}", t, with_dates(t, op)))
+
+    # B: distinct metadata that flatten alike (2 slices each)
+    for nm, ms in [("B:details-vs-loss_details", [Metadata(details={"k": "v"}), Metadata(loss_details={"k": "v"})]),
+                   ("B:detail-named-like-attribute", [Metadata(details={"currency": "USD"}), Metadata(currency="USD")]),
+                   ("B:none-vs-empty-string", [Metadata(country=None), Metadata(country="")]),
+                   ("B:only-loss_details-differ", [Metadata(loss_details={"c": "a"}), Metadata(loss_details={"c": "b"}), Metadata()])]:
+        add(nm, upper_left(2021, 1, 3, 3, ms, holes={(0, 1)}))
+    # C: calendar corners (monthly periods around February; add_months results stay after 1970: F10 is C12's)
+    for y in (2000, 2096, 2100, 2023, 2240):
+        add(f"C:feb-{y}", upper_left(y - 1, 12, 4, 1, holes={(0, 2)}))
+    # E: falsy but valid values
+    add("E:falsy-values", upper_left(2022, 1, 3, 3, vals={"paid_loss": 0, "earned_premium": 0.0, "x": None}, holes={(0, 1)}),
+        OPS + [{"kind": "bf", "statics": ["earned_premium", "x"], "res": 3, "min_lag": -2},
+               {"kind": "ff", "res": 3, "none": True}, {"kind": "rt", "unit": "month", "lags": [0]},
+               {"kind": "rt", "unit": "month", "lags": []}, {"kind": "bf", "statics": [], "res": 3, "min_lag": 0}])
+    add("E:falsy-metadata", upper_left(2022, 1, 2, 3, [Metadata(per_occurrence_limit=0, details={"k": 0}),
+                                                         Metadata(per_occurrence_limit=0.5, details={"k": False, "s": ""})]))
+    # F: degenerate shapes
+    add("F:empty", Triangle([]))
+    add("F:one-cell", upper_left(2022, 4, 1, 3))
+    t = upper_left(2022, 1, 3, 3)
+    add("F:field-missing-in-first-cell",
+        Triangle([c.replace(values={"paid_loss": 5} if c.evaluation_date == c.period_end else dict(c.values, late=1.5)) for c in t.cells]))
+    add("F:all-None-field", upper_left(2022, 1, 3, 3, vals={"paid_loss": None, "earned_premium": 3}, holes={(0, 1)}))
+    add("F:plain-Cell-class", upper_left(2022, 1, 3, 3, cls=Cell, holes={(0, 1)}))
+    # G: NumPy corner types carried / zeroed by the operators
+    gv = {"paid_loss": np.array([1, 2, 3], dtype=np.int64), "earned_premium": np.array([1.5, 2.5, 3.5]),
+          "f32": np.array([1, 2, 3], dtype=np.float32), "size1": np.array([7]), "big": np.int64(2**53 + 1), "f64": np.float64(0.5)}
+    add("G:numpy-values", upper_left(2022, 1, 3, 3, vals=gv, holes={(0, 1)}))
+    # J: period layouts: nested / overlapping periods, periods sharing a start, gaps and no two adjacent
+    q = upper_left(2022, 1, 2, 3)
+    add("J:nested-periods", Triangle(list(q.cells) + [mk(D(2022, 1, 1), D(2022, 6, 30), e) for e in (D(2022, 6, 30), D(2022, 12, 31))]))
+    add("J:gaps-none-adjacent", Triangle([mk(acc_mstart(a), mend(a), mend(a + k)) for a in (624, 626, 630) for k in (0, 1, 3) if a + k <= 633]))
+    semi = [(D(2021, 1, 1), D(2021, 1, 15)), (D(2021, 1, 16), D(2021, 1, 31)), (D(2021, 2, 1), D(2021, 2, 15))]
+    add("J:semi-monthly", Triangle([mk(a, b, e) for a, b in semi for e in (D(2021, 2, 15), D(2021, 3, 2)) if e >= b]),
+        [{"kind": "rt", "unit": "day", "lags": None}, {"kind": "rt", "unit": "day", "lags": [0, 15, 31, 60]},
+         {"kind": "rd", "dates": ["2021-02-15", "2021-03-02", "2021-03-03", "2021-04-01"], "hist": False}])
+    # K: boundary values of the optional parameters
+    t = upper_left(2022, 1, 3, 3)        # period resolution 3 -> min allowed lag -2 ; first lags 0
+    add("K:min-lag-boundaries", t, [{"kind": "bf", "statics": [], "res": 1, "min_lag": ml} for ml in (-2, -3, -1, 0, 1)]
+        + [{"kind": "bf", "statics": [], "res": 2, "min_lag": -2}, {"kind": "bf", "statics": [], "res": 3, "min_lag": -3}])
+    t = upper_left(2022, 1, 3, 3, holes={(0, 1)})
+    add("K:lag-boundaries", t, [{"kind": "rt", "unit": "month", "lags": ls} for ls in ([3], [6], [7], [5, 6], [-1, 0])]
+        + [{"kind": "ff", "res": r, "none": False} for r in (3, 6, 1)])
+    # K: the timedelta unit (F29): default lags and requested timedelta lags, on cumulative and incremental input
+    t = upper_left(2022, 1, 3, 3, holes={(0, 1)})
+    tdops = [{"kind": "rt", "unit": "timedelta", "lags": ls} for ls in (None, [92], [0, 91, 92, 400], [])]
+    add("K:timedelta-unit", t, tdops)
+    add("K:timedelta-unit-inc", Triangle(list(upper_left(2022, 1, 3, 3).to_incremental().cells)), tdops)
+    # L: refusals both ways
+    inc = list(upper_left(2022, 1, 3, 3).to_incremental().cells)
+    add("L:valid-incremental", Triangle(inc), OPS[:3])
+    broken = [c.replace(prev_evaluation_date=c.prev_evaluation_date - ONE) if i == 1 else c for i, c in enumerate(inc)]
+    add("L:broken-chain", Triangle(broken), OPS[:3])
+    first_off = [c.replace(prev_evaluation_date=c.period_start - datetime.timedelta(days=5)) if i == 0 else c for i, c in enumerate(inc)]
+    add("L:first-prev-not-period-start", Triangle(first_off), OPS[:3])
+    add("L:unknown-unit", upper_left(2022, 1, 3, 3), [{"kind": "rt", "unit": "fortnight", "lags": None},
+                                                      {"kind": "rt", "unit": "fortnight", "lags": [5]},
+                                                      {"kind": "rt", "unit": "fortnight", "lags": []}])
+    return out
+
+
 def known_class(ctx, kind):
     return any(k.get("property") == "C15" and k.get("status") == "known" and k.get("class") == {"kind": kind}
                for k in ctx.known)
+
+
+def k2_probe(ctx):
+    """Known finding K2: restated cells (same coordinates twice, accepted with a warning) -- fill_forward_gaps
+    keys a row by lag, so only the last of the restated observations survives."""
+    from bermuda import CumulativeCell, Triangle
+    from bermuda.utils.fill import fill_forward_gaps
+
+    mk = lambda e, v: CumulativeCell(period_start=D(2020, 1, 1), period_end=D(2020, 3, 31), evaluation_date=e,  # noqa: E731
+                                      values={"paid_loss": v})
+    with warnings.catch_warnings():
+        warnings.simplefilter("ignore")
+        t = Triangle([mk(D(2020, 3, 31), 1), mk(D(2020, 3, 31), 2), mk(D(2020, 9, 30), 3)])
+        out = fill_forward_gaps(t, eval_resolution=3)
+    kept = sorted(c.values["paid_loss"] for c in out if c.evaluation_date == D(2020, 3, 31))
+    if kept != [1, 2]:
+        ctx.violation("impl-violation",
+                      f"fill_forward_gaps on restated cells keeps {kept} of the two observations at 2020-03-31 (an observed cell is dropped)",
+                      {"cells": tri_to_json(t), "op": {"kind": "ff", "res": 3, "none": False}},
+                      found_input=True, finding_class={"kind": "fill_drops_restated_cell"})
 
 
 def candidate_probes(ctx):
@@ -754,6 +960,9 @@ def run(ctx):
     rng = random.Random(ctx.seed * 7368787 + 15)
     g = Gen(rng)
     cases = list(directed())
+    with warnings.catch_warnings():
+        warnings.simplefilter("ignore")
+        cases += hardening()
     n = 1300 if ctx.quick else 9000
     i = 0
     while len(cases) < n:
@@ -766,6 +975,7 @@ def run(ctx):
     ctx.obligation("correspondence model = implementation and specs hold on implementation outputs", not mism,
                    repr([(m[1], m[4]) for m in mism[:8]]))
     candidate_probes(ctx)
+    k2_probe(ctx)
     report(ctx, ofail, mism)
 
 
